@@ -22,7 +22,8 @@ PY = sys.executable
 HERE = os.path.dirname(os.path.abspath(__file__))
 FAKE = os.path.join(HERE, 'c07_fakeclock')
 
-LOCS = {'A': 'locA/w', 'B': 'elsewhere/deeper/location_B/x'}
+LOCS = {'A': 'locA/w', 'B': 'elsewhere/deeper/location_B/x', 'T': 'tmpfs_loc/t'}
+TMPFS = '/dev/shm'
 
 
 def write_tree(base, files):
@@ -36,9 +37,13 @@ def write_tree(base, files):
 def run_one(base, case, run):
     cdir = os.path.join(base, case['id'])
     loc = os.path.join(cdir, LOCS[run['loc']])
+    if run['loc'] == 'T' and os.path.isdir(TMPFS) and os.access(TMPFS, os.W_OK):
+        # another FILE SYSTEM (tmpfs lists a directory in reverse creation order, ext4/overlay by name hash)
+        loc = os.path.join(TMPFS, 'c07-' + os.path.basename(base), case['id'], LOCS['T'])
     if not os.path.isdir(os.path.join(loc, 'in')):
-        write_tree(os.path.join(loc, 'in'), case['dsdl'])
-        write_tree(os.path.join(loc, 'in2'), case.get('lookup', {}))
+        rev = run.get('tree') == 'rev'
+        write_tree(os.path.join(loc, 'in'), dict(sorted(case['dsdl'].items(), reverse=rev)))
+        write_tree(os.path.join(loc, 'in2'), dict(sorted(case.get('lookup', {}).items(), reverse=rev)))
     tpl = case.get('user_templates')
     if tpl and not os.path.isdir(os.path.join(loc, 'tpl')):
         # user template directories = copies of the built-in ones, placed next to the inputs (they move with the location)
@@ -49,6 +54,8 @@ def run_one(base, case, run):
             shutil.copytree(os.path.join(src_lang, sub), os.path.join(loc, dst),
                             ignore=shutil.ignore_patterns('*.py', '*.pyc', '__pycache__'))
     out = os.path.join(loc, 'out')
+    if run.get('out') == 'alt':
+        out = os.path.join(cdir, 'outputs_moved', 'deep', 'o2', 'out')       # outputs at another absolute location, inputs unmoved
     shutil.rmtree(out, ignore_errors=True)
     for rel, text in case.get('config_files', {}).items():
         if not os.path.exists(os.path.join(loc, rel)):
@@ -96,6 +103,13 @@ def run_one(base, case, run):
                            errors='replace', timeout=300)
         pre_log = q.stdout[-300:] if q.returncode else ''
         time.sleep(0.05)
+    for k, v in (run.get('env_extra') or {}).items():
+        if v is None:
+            env.pop(k, None)
+        else:
+            env[k] = v.replace('$CDIR', cdir)
+    if env.get('TMPDIR'):
+        os.makedirs(env['TMPDIR'], exist_ok=True)
     t0 = time.time()
     p = subprocess.run(cmd, cwd=cwd, env=env, stdout=subprocess.PIPE, stderr=subprocess.STDOUT, text=True, errors='replace', timeout=300)
     res = {'rc': p.returncode, 'files': {}, 'includes': {}, 't0': t0, 'log': p.stdout[-600:] if p.returncode else '', 'abs': loc, 'cwd': cwd, 'pre_log': pre_log}
@@ -108,7 +122,17 @@ def run_one(base, case, run):
             data = open(fp, 'rb').read()
             res['files'][rel] = hashlib.sha256(data).hexdigest()
             if run.get('want_includes') and rel.endswith(('.h', '.hpp')):
-                res['includes'][rel] = re.findall(r'^#include\s+(\S+)\s*$', data.decode('utf-8', 'replace'), flags=re.M)
+                # the block emitted by `{% for n in T | includes %}`: the first run of consecutive #include lines (templates may add
+                # fixed #include lines of their own further down)
+                blk, started = [], False
+                for ln in data.decode('utf-8', 'replace').splitlines():
+                    m = re.match(r'^#include\s+(\S+)\s*$', ln)
+                    if m:
+                        blk.append(m.group(1))
+                        started = True
+                    elif started:
+                        break
+                res['includes'][rel] = blk
     res['order'] = [r for _, r in sorted(mt)]     # order in which the files were written (not compared; evidence only)
     shutil.rmtree(out, ignore_errors=True)
     return case['id'], run['name'], res
@@ -139,6 +163,7 @@ def main():
     with concurrent.futures.ThreadPoolExecutor(max_workers=jobs) as ex:
         for cid, runs in ex.map(lambda c: run_case(base, c), doc['cases']):
             results[cid]['runs'] = runs
+    shutil.rmtree(os.path.join(TMPFS, 'c07-' + os.path.basename(base)), ignore_errors=True)
     sys.stdout.write(json.dumps({'out': [results[c['id']] for c in doc['cases']]}))
 
 
